@@ -7,14 +7,18 @@ ops (addresses are symbolic; `mk:<denom>` is the marker address of `<denom>`):
                  | <denom>;c|r;p|f|a|c|d;<grants>;<reqattrs>;<deny>
        grants    = <addr>+<rights>,…   rights ⊆ m b d w e a t f   (mint burn deposit withdraw delete admin transfer force)
        → allow | deny:<class>
-  bank <same fields> via=send|inout|delegate   the same movement through the real bank keeper
-       → allow moved | deny:<class> unmoved
+  bank <same fields> via=send|inout|delegate [fund=<coins>]
+       the same movement through the real bank keeper (model: `PvModel.MkrSend.Bank.sendCoins` /
+       `inputOutputCoinsProv` with one input and one output / `delegateCoins` on a ledger where the sender
+       holds `fund`, default = the coins; nothing locked, no later restriction interferes)
+       → allow moved | deny:<class> unmoved | err:bank unmoved (invalid coins, insufficient funds, …)
   match <required> <attribute>           keeper.MatchAttribute            → 1 | 0      (`~` = empty string)
   bypasslist                             the app's required-attribute bypass set → sorted symbolic names
 The verdict is the documented flowchart's answer (`Spec.sendRestrictionFn`) against the
 implementation's allow/deny.
 -/
 import PvModel.MkrSendSpec
+import PvModel.MkrBank
 import PvModel.Util
 -- registry: mkrsend PvModel.MkrSend.driver
 
@@ -99,6 +103,36 @@ def showDecision : Decision → String
 
 def unTilde (s : String) : String := if s = "~" then "" else s
 
+/-! ### the `bank` op: the movement through the bank wiring model -/
+
+/-- The harness' world: nothing locked, sanction/quarantine not involved, module accounts exist. -/
+def bankWorld (c : Case) : Bank.World :=
+  { env := c.cfg, locked := fun _ _ => 0, later := Bank.noLater, hasAccount := fun _ => true }
+
+/-- "moved" / "unmoved" / "partial" from the balances of sender and receiver before and after, coin by
+coin, as `execBank` computes it. -/
+def movedStr (l l' : Ledger) (f t : Addr) (amt : Coins) : String :=
+  let moved := amt.all fun c =>
+    Decidable.decide (l.bal f c.1 - l'.bal f c.1 = c.2) && Decidable.decide (l'.bal t c.1 - l.bal t c.1 = c.2)
+  let unmoved := amt.all fun c =>
+    Decidable.decide (l'.bal f c.1 = l.bal f c.1) && Decidable.decide (l'.bal t c.1 = l.bal t c.1)
+  if moved then "moved" else if unmoved then "unmoved" else "partial"
+
+def bankRun (c : Case) (via : String) (fund : Option Coins) : String :=
+  let w := bankWorld c
+  let f := c.cfg.fromAddr
+  let t := c.cfg.toAddr
+  let l : Ledger := Ledger.credit [] f (fund.getD c.amt)
+  let res :=
+    if via = "inout" then Bank.inputOutputCoinsProv w l [⟨f, c.amt⟩] [⟨t, c.amt⟩]
+    else if via = "delegate" then Bank.delegateCoins w l f t c.amt
+    else Bank.sendCoins w l f t c.amt
+  let mv := movedStr l (Bank.commit l res) f t c.amt
+  match res with
+  | .ok _ => "allow " ++ mv
+  | .error (.denied r) => "deny:" ++ r.cls ++ " " ++ mv
+  | .error _ => "err:bank " ++ mv
+
 def run (ws : List String) : String :=
   match ws with
   | "send" :: rest =>
@@ -107,10 +141,7 @@ def run (ws : List String) : String :=
     | none => "bad-op"
   | "bank" :: rest =>
     match parseCase rest with
-    | some c =>
-      match decide c.cfg c.amt with
-      | .ok _ => "allow moved"
-      | .error r => "deny:" ++ r.cls ++ " unmoved"
+    | some c => bankRun c ((kv rest "via").getD "send") ((kv rest "fund").bind parseCoins?)
     | none => "bad-op"
   | ["match", r, a] => boolStr (matchAttribute (unTilde r).toList (unTilde a).toList)
   | ["bypasslist"] => "|".intercalate Spec.bypassAccounts
@@ -144,7 +175,12 @@ def check (ws : List String) (impl : String) : String :=
   | "bank" :: rest =>
     match parseCase rest with
     | some c =>
-      if !isSortedCoins c.amt then "-" else
+      -- the bank's own preconditions (sdk.Coins validity, spendable funds) come before the restriction:
+      -- such a movement must fail without touching a balance, whatever the rules say
+      let l : Ledger := Ledger.credit [] c.cfg.fromAddr (((kv rest "fund").bind parseCoins?).getD c.amt)
+      if !Bank.isValid c.amt || !Bank.fundsSuffice (bankWorld c) l c.cfg.fromAddr c.amt then
+        (if iw = ["err:bank", "unmoved"] then "ok" else "fail:bank_invalid_or_unfunded_not_rejected")
+      else
       match Spec.sendRestrictionFn c.cfg c.amt, iw with
       | .ok, ["allow", "moved"] => "ok"
       | .ok, [d, "unmoved"] =>
